@@ -335,6 +335,18 @@ func (v *FnV) callWithArgs(st *State, call *ast.CallExpr, preArgs []Value) []Val
 		}
 		recv = &r
 	}
+	// devirtualisation: the interface value was built from a known concrete type in this activation
+	if recv != nil && isInterface(recv.T) {
+		if ct := v.knownDynType(recv.S); ct != nil {
+			if obj, _, _ := types.LookupFieldOrMethod(ct, true, v.fr().pkg.Types, fn.Name()); obj != nil {
+				if m, ok := obj.(*types.Func); ok {
+					cv := Value{T: ct, S: v.c.fromIface(recv.S, ct)}
+					fn, sig, full = m, m.Type().(*types.Signature), funcFullName(m)
+					recv = &cv
+				}
+			}
+		}
+	}
 	// interface method call
 	if recv != nil && isInterface(recv.T) {
 		args := v.evalArgs(st, call, sig, preArgs)
